@@ -108,11 +108,17 @@ def readValue (minBuf minRead : Nat) : Nat → St → Out × St
         readValue minBuf minRead fuel
           { s with started := true, buffer := buf, cap := cap, remain := rem, offset := s.offset + n, err := e', reader := rd }
 
-/-- drive Decode until the first non-value outcome (at most `limit` values) -/
+/-- number of bytes the script still holds -/
+def pendingBytes (r : Reader) : Nat := (r.map (·.data.length)).sum
+
+/-- drive Decode until the first non-value outcome (at most `limit` values). The refill loop of one `readValue` call
+gets fuel `pending bytes + pending events + 8`: every refill delivers at least one byte, or swallows at least one
+(zero-length) event, or meets the end of the script (proved sufficient in `Enc.Lemmas.StreamFull`; the earlier
+`s.reader.length + 8` was not, see `fuel_counterexample` there). -/
 def decodeAll (minBuf minRead : Nat) : Nat → St → List Out
   | 0, _ => []
   | limit + 1, s =>
-    let (o, s') := readValue minBuf minRead (s.reader.length + 8) s
+    let (o, s') := readValue minBuf minRead (pendingBytes s.reader + s.reader.length + 8) s
     match o with
     | .value .. => o :: decodeAll minBuf minRead limit s'
     | _ => [o]
